@@ -375,11 +375,101 @@ def t_estimation():
     return out
 
 
+CLASSMAP = {'ImpulseDict': 'ClsImpulseDict', 'SteadyStateDict': 'ClsSteadyStateDict', 'ResultDict': 'ClsResultDict', 'float': 'ClsFloat',
+            'int': 'ClsInt', 'numbers.Real': 'ClsReal', 'Real': 'ClsReal', 'numbers.Number': 'ClsNumber', 'str': 'ClsStr', 'dict': 'ClsDict',
+            'np.ndarray': 'ClsNdarray'}
+
+
+def isinstance_test(t, var):
+    """isinstance(var, C) / isinstance(var, (C1, C2)) / and / or / not  ->  Gallina bool over [k : okind]"""
+    if isinstance(t, ast.Call) and ast.unparse(t.func) == 'isinstance' and len(t.args) == 2 and ast.unparse(t.args[0]) == var:
+        cls = t.args[1].elts if isinstance(t.args[1], ast.Tuple) else [t.args[1]]
+        parts = []
+        for c in cls:
+            nm = ast.unparse(c)
+            if nm not in CLASSMAP:
+                raise Unsupported(f'class {nm} in isinstance')
+            parts.append(f'is_instance k {CLASSMAP[nm]}')
+        return '(' + ' || '.join(parts) + ')'
+    if isinstance(t, ast.BoolOp):
+        op = ' && ' if isinstance(t.op, ast.And) else ' || '
+        return '(' + op.join(isinstance_test(v, var) for v in t.values) + ')'
+    if isinstance(t, ast.UnaryOp) and isinstance(t.op, ast.Not):
+        return f'(negb {isinstance_test(t.operand, var)})'
+    raise Unsupported('operand test ' + ast.unparse(t)[:80])
+
+
+def t_containers():
+    """ImpulseDict.binary_operation operand ladder; pack/unpack slice bounds of JacobianDict and ImpulseDict"""
+    out = "From SSJ Require Import Lib.OperandKinds.\n\n"
+    bo = find_def('classes/impulse_dict.py', 'ImpulseDict.binary_operation')
+    if params(bo) != ['self', 'other', 'op']:
+        raise Unsupported('binary_operation signature')
+    body = [b for b in bo.body if not (isinstance(b, ast.Expr) and isinstance(b.value, ast.Constant))]
+    if len(body) != 1 or not isinstance(body[0], ast.If):
+        raise Unsupported('binary_operation body')
+
+    def classify(stmts_):
+        last = stmts_[-1]
+        src = '\n'.join(ast.unparse(x) for x in stmts_)
+        if isinstance(last, ast.Raise):
+            return 'LRefused'
+        if isinstance(last, ast.Return):
+            u = ast.unparse(last.value)
+            if u == 'NotImplemented':
+                return 'LRefused'
+            if isinstance(last.value, ast.Call) and ast.unparse(last.value.func).endswith(('Error', 'Exception')):
+                return 'LReturnsExceptionObject'
+            if u.startswith('ImpulseDict(toplevel, internals'):
+                if 'other[k]' in src and 'other.internals[b]' in src:
+                    return 'LElementwiseDict'
+                if 'op(v, other)' in src and 'other[' not in src:
+                    return 'LElementwiseScalar'
+        raise Unsupported('binary_operation branch: ' + src[:100])
+
+    def chain(node):
+        test = isinstance_test(node.test, 'other')
+        a = classify(node.body)
+        if len(node.orelse) == 1 and isinstance(node.orelse[0], ast.If):
+            b = chain(node.orelse[0])
+        elif node.orelse:
+            b = classify(node.orelse)
+        else:
+            raise Unsupported('ladder falls through (implicit return None)')
+        return f"(if {test} then {a} else {b})"
+    out += f"Definition impulse_operand_ladder (k : okind) : ladder :=\n  {chain(body[0])}.\n\n"
+
+    def slice_bounds(relpath, qual, arr, names):
+        fn = find_def(relpath, qual)
+        found = []
+        for n in ast.walk(fn):
+            if isinstance(n, ast.Subscript) and ast.unparse(n.value) == arr:
+                sl = n.slice.elts if isinstance(n.slice, ast.Tuple) else [n.slice]
+                if all(isinstance(x, ast.Slice) and x.step is None and x.lower is not None and x.upper is not None for x in sl):
+                    found.append([(expr(x.lower), expr(x.upper)) for x in sl])
+        if not found or any(f != found[0] for f in found):
+            raise Unsupported(f'{qual}: slices of {arr}')
+        return found[0]
+    jp = slice_bounds('classes/jacobian_dict.py', 'JacobianDict.pack', 'J', None)
+    ju = slice_bounds('classes/jacobian_dict.py', 'JacobianDict.unpack', 'bigjac', None)
+    ip = slice_bounds('classes/impulse_dict.py', 'ImpulseDict.pack', 'bigv', None)
+    iu = slice_bounds('classes/impulse_dict.py', 'ImpulseDict.unpack', 'bigv', None)
+    src = ast.unparse(find_def('classes/jacobian_dict.py', 'JacobianDict.pack'))
+    for needed in ('J = np.empty((len(self.outputs) * T, len(self.inputs) * T))', 'for iO, O in enumerate(self.outputs)', 'for iI, I in enumerate(self.inputs)'):
+        if needed not in src:
+            raise Unsupported('JacobianDict.pack context: ' + needed)
+    for nm, (lo, hi), var in (('jpack_row', jp[0], 'iO'), ('jpack_col', jp[1], 'iI'), ('junpack_row', ju[0], 'iO'), ('junpack_col', ju[1], 'iI'),
+                              ('ipack', ip[0], 'i'), ('iunpack', iu[0], 'i')):
+        out += f"Definition {nm}_lo (T {var} : Z) : Z := {lo}.\nDefinition {nm}_hi (T {var} : Z) : Z := {hi}.\n"
+    return out
+
+
 TARGETS = {
     'MultiplyBasis': t_multiply_basis,
     'ComputeL': t_compute_l,
     'SparseIndex': t_sparse_index,
     'Estimation': t_estimation,
+    'Containers': t_containers,
 }
 
 
